@@ -44,12 +44,16 @@ PoolNI == SetToSeq({x \in R0 \cup Refs \cup L1 \cup L2 : NoInline(x) /\ NoRec(x)
 Pick(s, n) == s[(n % Len(s)) + 1]
 
 Docs == << <<>>, <<"the value">>, <<"first line", "second: line (2)">>, <<"">> >>
-FNames == <<"id", "user_name", "x2", "is_ok", "a", "count_3d">>
+\* (more than ten names, not in alphabetical order: a wide struct shows whether declaration order survives
+\* whatever the derive does with its per-field items)
+FNames == <<"id", "user_name", "x2", "is_ok", "a", "count_3d", "zeta", "alpha", "mid", "b2", "kilo", "lima",
+            "charlie", "echo">>
+Wide(i) == i % 9 = 8
 Field(i, j, pool) == [name |-> FNames[j], docs |-> Pick(Docs, i + j), ty |-> Pick(pool, i * 7 + j * 13)]
 Var(n, d) == [name |-> n, docs |-> d]
 ErrOrders == << <<1, 2, 3, 4>>, <<2, 1, 4, 3, 5>>, <<3, 4, 1, 2>>, <<5, 4, 3, 2, 1>>, <<2, 3>>, <<3, 1>>, <<1>>, <<>>, <<5, 2>> >>
 Group(i) ==
-    LET k == i % 7
+    LET k == IF Wide(i) THEN 11 + (i % 4) ELSE i % 7
         rec == [name |-> "Rec", docs |-> Pick(Docs, i), isenum |-> FALSE,
                 fields |-> [j \in 1..k |-> Field(i, j, PoolRec)], variants |-> <<>>]
         mode == [name |-> "Mode", docs |-> Pick(Docs, i + 1), isenum |-> TRUE, fields |-> <<>>,
@@ -62,7 +66,7 @@ Group(i) ==
                  variants |-> IF i % 2 = 0 THEN <<Var("small", <<>>), Var("Large", <<>>)>> ELSE <<Var("one", <<>>)>>]
         evs == << [name |-> "NotFound", docs |-> Pick(Docs, i + 2), kind |-> "unit", fields |-> <<>>, inline |-> ""],
                   [name |-> "Invalid", docs |-> Pick(Docs, i + 3), kind |-> "struct",
-                   fields |-> [j \in 1..((i % 4) + 1) |-> Field(i + 5, j, Pool)], inline |-> ""],
+                   fields |-> [j \in 1..(IF Wide(i) THEN 12 ELSE (i % 4) + 1) |-> Field(i + 5, j, Pool)], inline |-> ""],
                   [name |-> "Detailed", docs |-> Pick(Docs, i), kind |-> "tuple", fields |-> <<>>, inline |-> "Inner"],
                   [name |-> "Busy", docs |-> <<>>, kind |-> "unit", fields |-> <<>>, inline |-> ""],
                   \* a second struct-like variant whose name differs from `Invalid' only in case and whose fields have
